@@ -392,6 +392,18 @@ def family_ctxfilt(cat):
                 cat.add("ctxfilt", [lookup([ctx([rule([{1}, {1}], [(1, 2), (0, 3)])], fmt=fmt)], **pf),
                                     lookup([single({1: 2})], **cf),
                                     lookup([lig({1: [([2], 3), ([4], 6), ([5], 6)]})], **cf)])
+    # sibling actions with the same flag bits but different mark filtering sets / attachment types, in one
+    # rule and in two rules (which one runs first depends on the input: a filter must never be remembered
+    # by flag bits alone, neither within a call nor between calls)
+    for a, b in ((dict(useSet=True, markSet=1), dict(useSet=True, markSet=2)),
+                 (dict(useSet=True, markSet=2), dict(useSet=True, markSet=3)),
+                 (dict(attach=1), dict(attach=2)),
+                 (dict(flags=["base"], useSet=True, markSet=1), dict(flags=["base"], useSet=True, markSet=2))):
+        for fmt in (1, 3):
+            cat.add("ctxfilt", [lookup([ctx([rule([{1}, {1}], [(0, 2), (0, 3)])], fmt=fmt)], flags=["mark"]),
+                                lookup([lig({1: [([1], 3)]})], **a), lookup([lig({1: [([1], 6)], 3: [([1], 2)]})], **b)])
+            cat.add("ctxfilt", [lookup([ctx([rule([{1}, {1}], [(0, 2)]), rule([{2}, {2}], [(0, 3)])], fmt=fmt)], flags=["mark"]),
+                                lookup([lig({1: [([1], 3)]})], **a), lookup([lig({2: [([2], 6)]})], **b)])
     # three levels: the middle lookup ignores glyphs the outer one does not; the innermost lookup could use
     # a glyph directly behind the outer match if the middle match were allowed to grow beyond it
     for pf in (dict(), dict(useSet=True, markSet=1), dict(attach=2)):
@@ -578,6 +590,11 @@ def family_malformed(cat):
     for chain in (False, True):
         cat.add("mal-classidx", [lookup([ctx([rule([{1}, {2}], [(0, 2)]), rule([{2}], [(0, 2)])], fmt=2, chain=chain,
                                              trunc={2})]), CHILDREN["single"]()])
+    # class-based pair adjustment whose class definitions name classes outside the matrix (both axes,
+    # more rows than columns and the other way round): no adjustment, no panic
+    for rows, cols, c1, c2 in ((3, 2, 1, 2), (2, 3, 2, 1), (3, 1, 2, 2), (1, 3, 0, 5)):
+        mat = [[(vr(0, 0, 10 * r + c), vr(c, 0, 0) if (r + c) % 2 else None) for c in range(cols)] for r in range(rows)]
+        cat.add("mal-pairclass", [lookup([pair2({1, 2}, {1: c1, 2: 0}, {1: 1, 2: c2, 4: 7}, mat, range(1, 7))], gpos=True)])
     cat.add("mal-anchorclass", [lookup([attach("mbase", {4: (3, 1, 1)}, {1: [(1, 1)]})], gpos=True)])
 
 
